@@ -126,10 +126,10 @@ class Gen:
             return par('%s if %s else %s' % (self.expr(scope, depth + 1), self.expr(scope, depth + 1),
                                              self.expr(scope, depth + 1)))
         if r < 0.78:
-            op = rng.choice([' < ', ' == ', ' != ', ' >= ', ' and ', ' or '])
+            op = rng.choice([' and ', ' or ', ' and ', ' or ', ' in ', ' not in '])
             return par(self.atom(scope) + op + self.expr(scope, depth + 1))
         if r < 0.81:
-            return par(self.atom(scope) + ' is not ' + self.atom(scope))
+            return par(self.atom(scope) + ' or ' + self.atom(scope))
         if r < 0.84:
             return '-' + self.atom(scope)
         if r < 0.92 and self.funcs:
@@ -173,7 +173,7 @@ class Gen:
         rng = self.rng
         scope = list(scope)
         out = []
-        n = rng.randint(2, 5)
+        n = rng.randint(1, 4) if depth else rng.randint(2, 5)
         for i in range(n):
             out += self.noise(ind)
             r = rng.random()
@@ -276,14 +276,14 @@ class Gen:
             v = self.fresh()
             L.append('%s = %s' % (v, self.expr(scope, 2)))
             scope.append(v)
-        for _ in range(rng.randint(1, 2)):
+        for _ in range(rng.choice([1, 1, 2])):
             L += self.noise('')
             name, n, out = self.funcdef('', scope)
             L += out
             self.funcs.append((name, n))
             if rng.random() < 0.5:
                 L.append('')
-        if rng.random() < 0.75:
+        if rng.random() < 0.55:
             cname = rng.choice(['Klass', 'Cé', 'Widget']) + str(len(self.classes))
             attrs = [self.fresh() for _ in range(rng.randint(1, 2))]
             L.append('class %s:' % cname)
@@ -292,7 +292,7 @@ class Gen:
             cattr = self.fresh()
             L.append('    %s = %s' % (cattr, rng.randint(0, 9)))
             methods = []
-            for _ in range(rng.randint(1, 2)):
+            for _ in range(rng.choice([1, 1, 2])):
                 name, n, out = self.funcdef('    ', [], method_of=attrs)
                 L += out
                 if not any(o.strip() in ('@staticmethod', '@classmethod') for o in out[:1]):
@@ -309,10 +309,12 @@ class Gen:
         return L
 
 
+# (mod.py and pkg/sub.py refer to their own module/package, so that a module rename also
+# changes files that are themselves moved by it)
 AUX_FILES = {
-    'mod.py': 'MV = 1\n\ndef mf(a):\n    return a + MV\n',
+    'mod.py': 'MV = 1\n\ndef mf(a):\n    return a + MV\n\n\ndef again():\n    import mod\n    return mod.MV\n',
     'pkg/__init__.py': '# package\nPV = 5\n',
-    'pkg/sub.py': 'SV = 2\r\n\r\ndef sf(b):\r\n    # keep é\r\n    return b * SV\r\n',
+    'pkg/sub.py': 'SV = 2\r\n\r\ndef sf(b):\r\n    # keep é\r\n    return b * SV\r\n\r\ndef up():\r\n    import pkg\r\n    from pkg import sub\r\n    return pkg.PV + sub.SV\r\n',
     'user.py': 'import mod\nimport pkg\nfrom pkg import sub\nuv = mod.MV + sub.SV + pkg.PV  # u',
 }
 # files whose names share a *string* prefix with a renamed file/package
@@ -486,6 +488,13 @@ def gen_ops(rng, src, nops, multi, new_names):
                 body2 = lines[ln2 - 1].rstrip('\r\n')
                 col2 = rng.randint(col if ln2 == ln else 0, max(col if ln2 == ln else 0, len(body2)))
                 op.update(line=ln, column=col, until_line=ln2, until_column=col2)
+        if kind.startswith('extract') and not op.get('oob') and rng.random() < 0.04:
+            # out-of-range END of the selection
+            op['until_line'] = nl + rng.randint(1, 3)
+            if rng.random() < 0.5:
+                op.pop('until_column', None)
+            else:
+                op['until_column'] = 0
         ops.append(op)
     return ops
 
@@ -506,12 +515,12 @@ def snapshot(root):
     return files, dirs
 
 
-def write_tree(root, files):
+def write_tree(root, files, enc=None):
     for rel, txt in files.items():
         p = os.path.join(root, rel)
         os.makedirs(os.path.dirname(p), exist_ok=True)
         with open(p, 'wb') as f:
-            f.write(txt.encode('utf-8'))
+            f.write(txt.encode((enc or {}).get(rel, 'utf-8')))
 
 
 def ser_tree(node, keymap, path, out_paths):
@@ -596,19 +605,20 @@ def observe_refactoring(r, root):
     return obs
 
 
-def run_op(jedi, root, files, main_rel, op, use_path, code_arg):
+def run_op(jedi, root, files, main_rel, op, use_path, code_arg, enc=None):
     """Run one refactoring request on a fresh copy of the tree under `root`."""
     from jedi.api.exceptions import RefactoringError
     if os.path.exists(root):
         shutil.rmtree(root)
     os.makedirs(root)
-    write_tree(root, files)
+    write_tree(root, files, enc)
     snap0 = snapshot(root)
     res = dict(op=op)
-    kwargs = {}
+    # SAFETY: always an explicit project rooted in the scratch directory.  Without it jedi falls
+    # back to a project found from the cwd and a rename of a builtin name would rewrite files there.
+    kwargs = {'project': jedi.Project(root)}
     if use_path:
         kwargs['path'] = os.path.join(root, main_rel)
-        kwargs['project'] = jedi.Project(root)
     try:
         if code_arg or not use_path:
             script = jedi.Script(files[main_rel], **kwargs)
@@ -650,6 +660,16 @@ def run_op(jedi, root, files, main_rel, op, use_path, code_arg):
         return res
     res['fs_same_after_inspect'] = snapshot(root) == snap0
     if op.get('apply'):
+        # SAFETY: never let apply() write outside the scratch directory
+        touched = [p for p in r.get_changed_files() if p is not None] + [x for pair in r.get_renames() for x in pair]
+        rr = os.path.realpath(root) + os.sep
+        outside = [str(p) for p in touched if not os.path.realpath(str(p)).startswith(rr)]
+        if outside:
+            res['apply'] = 'refused-by-harness'
+            res['outside'] = outside[:5]
+            res['fs_before'] = {k: v.decode('utf-8', 'surrogateescape') for k, v in snap0[0].items()}
+            res['dirs_before'] = sorted(snap0[1])
+            return res
         try:
             r.apply()
             res['apply'] = 'ok'
@@ -671,14 +691,14 @@ _WORK = {}
 
 
 def _task(t):
-    """(index, root, files, main_rel, ops, use_path, code_arg)"""
-    idx, root, files, main_rel, ops, use_path, code_arg = t
+    """(index, root, files, main_rel, ops, use_path, code_arg, enc)"""
+    idx, root, files, main_rel, ops, use_path, code_arg, enc = t
     import jedi
     jedi.settings.cache_directory = os.path.join(_WORK['cache'], 'p%d' % os.getpid())
     out = []
     for j, op in enumerate(ops):
         try:
-            out.append(run_op(jedi, os.path.join(root, 'op%d' % j), files, main_rel, op, use_path, code_arg))
+            out.append(run_op(jedi, os.path.join(root, 'op%d' % j), files, main_rel, op, use_path, code_arg, enc))
         except Exception as e:   # harness trouble, reported by the parent
             out.append(dict(op=op, outcome='harness-error', sig=common.exc_sig(e), msg=repr(e)))
         finally:
@@ -813,16 +833,16 @@ def code_of(t):
     return ''.join(code_of(c) for c in t[1])
 
 
-FILE_FN = ("(fun c => let '(t, m, newc, nrepl, hs, has_diff) := c in "
+FILE_FN = ("(fun c : tree * nmap * str * nat * list hunk * bool => let '(t, m, newc, nrepl, hs, has_diff) := c in "
            "str_eqb (refactor t m) newc && "
            "Nat.eqb (length (filter is_repl (pieces t m []))) nrepl && "
            "str_eqb (new_of (pieces t m [])) newc && "
            "(if has_diff then diff_ok (get_code t) newc hs "
            " else lines_eqb (preamble (get_code t)) (preamble newc)))")
 
-PATH_FN = ("(fun c => let '(p, rs, obs) := c in str_eqb (calc_to_path p rs) obs)")
+PATH_FN = ("(fun c : str * list (str * str) * str => let '(p, rs, obs) := c in str_eqb (calc_to_path p rs) obs)")
 
-REN_FN = ("(fun c => let '(dir, name, nn, f, t) := c in "
+REN_FN = ("(fun c : cpath * str * str * cpath * cpath => let '(dir, name, nn, f, t) := c in "
           "let r := calculate_rename dir name nn in cpath_eqb (fst r) f && cpath_eqb (snd r) t)")
 
 FS_DEFS = '''
@@ -830,7 +850,7 @@ Definition fs_same (a b : fs) : bool :=
   Nat.eqb (length a) (length b) &&
   forallb (fun e => match fs_lookup b (fst e) with Some c => N.eqb c (snd e) | None => false end) a.
 '''
-FS_FN = ("(fun c => let '(changed, renames, before, after) := c in fs_same (apply_fs changed renames before) after)")
+FS_FN = ("(fun c : list (cpath * N) * list (cpath * cpath) * fs * fs => let '(changed, renames, before, after) := c in fs_same (apply_fs changed renames before) after)")
 
 
 # =============================================================================
@@ -885,6 +905,11 @@ def comments_of(code):
     return out
 
 
+def _bytes_repr(x):
+    """file contents were decoded with surrogateescape; show them as bytes in replay files"""
+    return None if x is None else repr(x.encode('utf-8', 'surrogateescape'))
+
+
 class Analysis:
     """Parent-side evaluation of the workers' observations."""
 
@@ -904,7 +929,7 @@ class Analysis:
     # ---- helpers
     def where(self, task, op, extra=None):
         w = dict(files=task['files'], main=task['main'], use_path=task['use_path'], code_arg=task['code_arg'],
-                 op=op, style=task['style'], program=task['name'])
+                 op=op, style=task['style'], program=task['name'], enc=task.get('enc'))
         if extra:
             w.update(extra)
         return w
@@ -921,6 +946,16 @@ class Analysis:
         in_range = 1 <= ln <= len(lines) and 0 <= col <= len(lines[ln - 1].rstrip('\r\n')) \
             if isinstance(ln, int) and isinstance(col, int) else False
         has_until = 'until_line' in op or 'until_column' in op
+        reaches_eof = False
+        ul_ = op.get('until_line', ln)
+        until_oob = has_until and isinstance(ul_, int) and (
+            not 1 <= ul_ <= len(lines)
+            or ('until_column' in op and not 0 <= op['until_column'] <= len(lines[ul_ - 1].rstrip('\r\n'))))
+        if has_until and in_range and not until_oob:
+            ul = op.get('until_line', ln)
+            uc = op.get('until_column', len(lines[min(ul, len(lines)) - 1].rstrip('\r\n')) if 1 <= ul <= len(lines) else 0)
+            tail = lines[ul - 1][uc:] + ''.join(lines[ul:]) if 1 <= ul <= len(lines) else ''
+            reaches_eof = all(not l.strip() or l.strip().startswith('#') for l in split_keepends(tail))
         # ---------------------------------------------------------- exception contract
         ctx.count('exc', key, nontrivial=outcome != 'ok')
         if outcome == 'harness-error':
@@ -928,15 +963,15 @@ class Analysis:
         if outcome in ('exception', 'inspect-exception'):
             sg = res['sig']
             ctx.deviation(dict(stream='exc', kind=kind, exc=sg['exc'], site=sg['site'], has_until=has_until,
-                               phase='inspect' if outcome == 'inspect-exception' else 'request'),
+                               reaches_eof=reaches_eof, until_oob=until_oob, phase='inspect' if outcome == 'inspect-exception' else 'request'),
                           self.where(task, op, dict(error=sg)),
                           '%s raised %s (%s) instead of RefactoringError' % (kind, sg['exc'], sg['msg']))
             return
-        if outcome == 'ValueError' and in_range:
+        if outcome == 'ValueError' and in_range and not until_oob:
             ctx.deviation(dict(stream='exc', kind=kind, exc='ValueError', site=res['sig']['site'], cls='valueerror-in-range'),
                           self.where(task, op, dict(error=res['sig'])),
                           '%s raised ValueError for a position inside the text' % kind)
-        if not in_range:
+        if not in_range or until_oob:
             self.stats['oob'] += 1
         if outcome == 'RefactoringError':
             self.bump('messages', re.sub(r'".*?"', '"…"', res['msg'])[:60])
@@ -1077,30 +1112,35 @@ class Analysis:
                               where(dict(new_code=new, bad_keys=[dict(type=k['type'], prefix=k['prefix'], repl=k['repl']) for k in bad[:5]])),
                               'rename rewrites something other than the name token itself (prefix %r -> %r)' % (bad[0]['prefix'], bad[0]['repl']))
         else:
-            # ---- prefixes of rewritten nodes: the complete lines of the prefix (comments, blank
-            # lines, line ends) must be re-emitted at the front of the replacement or moved elsewhere
-            lost = []
-            for k in eff:
-                pl = ''.join(split_keepends(k['prefix'])[:-1])
-                if pl and not k['repl'].startswith(pl) and pl not in new:
-                    lost.append(k)
-            if lost:
-                ctx.deviation(dict(stream='outside', cls='prefix-lines-lost', kind=kind),
-                              where(dict(new_code=new, prefix=lost[0]['prefix'], repl=lost[0]['repl'])),
-                              '%s drops comment/blank lines in front of a rewritten node' % kind)
+            # ---- the white space / comments in front of a rewritten name are re-emitted
             if kind == 'inline':
                 for k in eff:
-                    if k['repl'] != '' and k['type'] in ('name', 'trailer') and not k['repl'].startswith(
-                            k['prefix'] if k['type'] == 'name' else ''):
+                    if k['repl'] != '' and k['type'] == 'name' and not k['repl'].startswith(k['prefix']):
                         ctx.deviation(dict(stream='outside', cls='inline-prefix-dropped', kind=kind),
                                       where(dict(new_code=new, prefix=k['prefix'], repl=k['repl'])),
                                       'inline drops the white space/comments in front of the replaced name')
                         break
-            co, cn = sorted(comments_of(old)), sorted(comments_of(new))
-            if co != cn:
-                ctx.deviation(dict(stream='outside', cls='comments-changed', kind=kind),
-                              where(dict(new_code=new, old_comments=co, new_comments=cn)),
-                              '%s changes the comments of the file (%r -> %r)' % (kind, co, cn))
+            if kind == 'extract_variable':
+                for k in eff:
+                    if k['repl'].endswith(op['new_name']) and k['repl'] != '':
+                        pls = split_keepends(k['prefix'])
+                        if not (k['repl'].startswith(''.join(pls[:-1])) and k['repl'].endswith(pls[-1] + op['new_name'])):
+                            ctx.deviation(dict(stream='outside', cls='extract-prefix-dropped', kind=kind),
+                                          where(dict(new_code=new, prefix=k['prefix'], repl=k['repl'])),
+                                          'extract_variable drops white space/comments/blank lines in front of the extracted expression')
+                            break
+            # ---- no comment is lost (an inlined expression may repeat the comments it contains)
+            co, cn = comments_of(old), comments_of(new)
+            lost = list(co)
+            for c in cn:
+                if c in lost:
+                    lost.remove(c)
+            # a comment that was itself cut by the requested range is rewritten, not lost
+            lost = [c for c in lost if not any(x.startswith(c) for x in cn)]
+            if lost:
+                ctx.deviation(dict(stream='outside', cls='comments-lost', kind=kind),
+                              where(dict(new_code=new, lost=lost)),
+                              '%s loses the comments %r' % (kind, lost))
         # ---- Coq: refactor t m = new_code, verified applier on the parsed hunks
         tree = f['tree']
         if code_of(tree) != old:
@@ -1125,6 +1165,10 @@ class Analysis:
         self.bump('apply', str(st))
         ctx.count('apply', key, nontrivial=st == 'ok')
         before, after = res['fs_before'], res.get('fs_after')
+        if st == 'refused-by-harness':
+            ctx.violation('obligation', dict(what='a refactoring wanted to change files outside the scratch project; not applied',
+                                             outside=res.get('outside'), input=self.where(task, op)), nofail=True)
+            return
         if st == 'exception':
             sg = res['sig']
             ctx.deviation(dict(stream='exc', kind=kind, exc=sg['exc'], site=sg['site'], phase='apply'),
@@ -1135,15 +1179,22 @@ class Analysis:
                 ctx.deviation(dict(stream='apply', cls='apply-refused', kind=kind), self.where(task, op, dict(msg=res.get('apply_msg'))),
                               'apply() refused a refactoring of files on disk')
             elif after != before:
-                ctx.deviation(dict(stream='apply', cls='failed-apply-touched-disk', kind=kind), self.where(task, op),
-                              'apply() failed but changed the directory')
+                pathless = any(f['from'] is None for f in obs['files']) and \
+                    'path=None' in (res.get('apply_msg') or '')
+                ctx.deviation(dict(stream='apply', cls='failed-apply-touched-disk', pathless_buffer=pathless),
+                              self.where(task, op, dict(msg=res.get('apply_msg'),
+                                                        rewritten=sorted(p for p in after if after[p] != before.get(p)))),
+                              'apply() raised RefactoringError (%s) after it had already rewritten %d file(s)' % (
+                                  res.get('apply_msg'), sum(1 for p in after if after[p] != before.get(p))))
             return
         # expected state: every changed file holds get_new_code() (exact bytes), then the renames
         exp = dict(before)
+        encs = task.get('enc') or {}
         for f in obs['files']:
             if f['from'] is None:
                 continue
-            exp[f['from']] = f['new_code']
+            # the announced content, in the encoding the file declares (and is read with)
+            exp[f['from']] = f['new_code'].encode(encs.get(f['from'], 'utf-8')).decode('utf-8', 'surrogateescape')
         exp = {move_rel(p, renames): c for p, c in exp.items()}
         exp_dirs = set()
         for p in exp:
@@ -1155,9 +1206,14 @@ class Analysis:
             p0 = diffs[0] if diffs else None
             newline_translation = p0 in after and p0 in exp and after[p0].replace('\r\n', '\n').replace('\r', '\n') == \
                 exp[p0].replace('\r\n', '\n').replace('\r', '\n')
-            ctx.deviation(dict(stream='apply', cls='applied-state', kind=kind, only_line_ends=bool(newline_translation)),
-                          self.where(task, op, dict(differing=diffs[:6], on_disk={p: after.get(p) for p in diffs[:3]},
-                                                    announced={p: exp.get(p) for p in diffs[:3]})),
+            declared = encs.get(p0)
+            reenc = bool(declared) and p0 in after and any(
+                f['from'] == p0 and after[p0] == f['new_code'] for f in obs['files'])
+            ctx.deviation(dict(stream='apply', cls='applied-state', only_line_ends=bool(newline_translation),
+                               declared_encoding=declared, rewritten_as_utf8=reenc),
+                          self.where(task, op, dict(differing=diffs[:6],
+                                                    on_disk={p: _bytes_repr(after.get(p)) for p in diffs[:3]},
+                                                    announced={p: _bytes_repr(exp.get(p)) for p in diffs[:3]})),
                           'after apply() the directory is not the announced state (differs at %r)' % (diffs[:3],))
         # the FS model on content ids
         ids = {}
@@ -1179,9 +1235,18 @@ class Analysis:
     def evaluate(self):
         ctx = self.ctx
         # biggest cases first into separate shards would be wasteful: keep order, shard small
-        fails, err = common.coq_failing(IMPORTS, FILE_FN, self.file_cases, shard=self.shard, timeout=900)
-        if err:
-            raise RuntimeError('coq evaluation failed (files): ' + err[-1500:])
+        fails, done, wave = [], 0, self.shard * common.NPROC
+        while done < len(self.file_cases) and (done == 0 or time.time() < self.deadline):
+            f2, err = common.coq_failing(IMPORTS, FILE_FN, self.file_cases[done:done + wave], shard=self.shard, timeout=900)
+            if err:
+                raise RuntimeError('coq evaluation failed (files): ' + err[-1500:])
+            fails += [done + i for i in f2]
+            done += wave
+        done = min(done, len(self.file_cases))
+        ctx.stat('coq_file_cases', dict(total=len(self.file_cases), evaluated=done,
+                                        chars=sum(len(c) for c in self.file_cases[:done])))
+        self.file_meta = self.file_meta[:done]
+        self.file_cases = self.file_cases[:done]
         for i in fails[:6]:
             mt = self.file_meta[i]
             detail = common.coq_show(IMPORTS, [
@@ -1231,3 +1296,202 @@ class Analysis:
             ctx.violation('obligation', dict(what='correspondence apply_fs: the FS model and the directory after apply() differ '
                                                   '(the snapshot oracle reports the property-level failure, if any, separately)',
                                              input=dict(op=mt['op'], renames=mt['renames'], changed=mt['changed'])), nofail=True)
+
+
+# =============================================================================
+# building the tasks
+
+STYLES = ['lf', 'crlf', 'mixed', 'cr']
+
+
+def build_tasks(ctx, root):
+    rng = ctx.rng
+    tasks = []
+
+    def add(name, files, main, style, multi, nops, use_path=None, code_arg=None, enc=None):
+        src = files[main]
+        ops = gen_ops(rng, src, nops, multi, NEW_NAMES)
+        up = (rng.random() < (0.85 if multi else 0.65)) if use_path is None else use_path
+        ca = rng.random() < 0.5 if code_arg is None else code_arg
+        tasks.append(dict(idx=len(tasks), name=name, files=files, main=main, style=style, multi=multi,
+                          ops=ops, use_path=up, code_arg=ca, enc=enc, root=os.path.join(root, 't%d' % len(tasks))))
+
+    # corpus first (seed-independent sources; positions are seeded)
+    for name, src in CORPUS:
+        for style in (STYLES if not ctx.quick else ['lf', rng.choice(['crlf', 'mixed', 'cr'])]):
+            s2 = restyle(src, style, rng) if style != 'lf' else src
+            if rng.random() < 0.3 and s2.endswith(('\n', '\r')):
+                s2 = s2.rstrip('\r\n')
+            add('corpus:' + name, {'main.py': s2}, 'main.py', style, False, ctx.n(8, 14))
+    # files in a declared source encoding other than UTF-8 (read from disk, always applied)
+    for coding, codec in (('latin-1', 'latin-1'), ('cp1252', 'cp1252'), ('utf-8', 'utf-8')):
+        src = ('# -*- coding: %s -*-\n# caf\xe9 \xfc\ntitle = "na\xefve"\ncount = 3\n'
+               'def show(n):\n    t = title * n  # \xe9\n    return t\nout = show(count) + title\n') % coding
+        add('encoding:' + coding, {'main.py': src}, 'main.py', 'lf', False, ctx.n(6, 12), use_path=True, code_arg=False,
+            enc={'main.py': codec})
+        for o in tasks[-1]['ops']:
+            o['apply'] = True
+    # the multi-file project, including the aux files as the file under the cursor
+    for i in range(ctx.n(10, 60)):
+        files = dict(AUX_FILES)
+        if rng.random() < 0.6:
+            files.update(PREFIX_FILES)
+        style = rng.choice(STYLES[:3])
+        files = {k: (restyle(v, style, rng) if rng.random() < 0.5 else v) for k, v in files.items()}
+        files['main.py'] = files.pop('user.py')
+        files['user.py'] = AUX_FILES['user.py']
+        main = rng.choice(['main.py', 'main.py', 'pkg/sub.py', 'mod.py', 'pkg2/other.py' if 'pkg2/other.py' in files else 'main.py'])
+        add('project', files, main, style, True, ctx.n(8, 12))
+    # generated programs
+    for i in range(ctx.n(110, 900)):
+        multi = rng.random() < 0.3
+        g = Gen(rng, rng.random() < 0.4, multi)
+        lines = g.program()
+        style = rng.choice(['lf', 'lf', 'crlf', 'mixed', 'cr'])
+        src = with_endings(lines, rng, style, rng.random() < 0.7)
+        files = {'main.py': src}
+        if multi:
+            files.update(AUX_FILES)
+            if rng.random() < 0.5:
+                files.update(PREFIX_FILES)
+        add('gen', files, 'main.py', style, multi, ctx.n(10, 14))
+    return tasks
+
+
+# fingerprints of the modelled definitions in the tree this check was written against
+FP_REFERENCE = {
+    "jedi/api/refactoring/__init__.py:ChangedFile.get_diff": "f3f70942fd803166",
+    "jedi/api/refactoring/__init__.py:ChangedFile.get_new_code": "03c3242d4ac37ef7",
+    "jedi/api/refactoring/__init__.py:ChangedFile.apply": "a3b24727c5b1398a",
+    "jedi/api/refactoring/__init__.py:Refactoring.get_changed_files": "2899618abc880065",
+    "jedi/api/refactoring/__init__.py:Refactoring.get_renames": "a7b251813a72fbe1",
+    "jedi/api/refactoring/__init__.py:Refactoring.get_diff": "e723b1d943217849",
+    "jedi/api/refactoring/__init__.py:Refactoring.apply": "cb3b332c31cda65e",
+    "jedi/api/refactoring/__init__.py:_calculate_rename": "eea4a8557aff09db",
+    "jedi/api/refactoring/__init__.py:rename": "8baeec06e872b54b",
+    "jedi/api/refactoring/__init__.py:inline": "f371560427ed5f45",
+    "jedi/api/refactoring/__init__.py:_remove_indent_of_prefix": "130dd67fdeae1b70",
+    "jedi/api/refactoring/extract.py:extract_variable": "6d7cadb8a0a98e47",
+    "jedi/api/refactoring/extract.py:extract_function": "29a6ff78694fdb7b",
+    "jedi/api/refactoring/extract.py:_replace": "e8e7727f4020ec15",
+    "jedi/api/refactoring/extract.py:_find_nodes": "77ef10bb643bb892",
+    "jedi/api/__init__.py:Script.rename": "67a6d9b4d4bd627f",
+    "jedi/api/__init__.py:Script.inline": "36ea360a40ef9b05",
+    "jedi/api/__init__.py:Script.extract_variable": "ca76879a8d885966",
+    "jedi/api/__init__.py:Script.extract_function": "31bfa0119b92ee88",
+    "jedi/api/helpers.py:validate_line_column": "450bfff697739214"
+}
+
+
+def _reference_fingerprints():
+    return FP_REFERENCE
+
+
+def _task_d(t):
+    return _task((t['idx'], t['root'], t['files'], t['main'], t['ops'], t['use_path'], t['code_arg'], t.get('enc')))
+
+
+def run(ctx):
+    import tempfile
+    common.setup_jedi(os.path.join(ctx.tmp, 'cache'))
+    ctx.proofs()
+    ctx.cov['fingerprints'] = common.fingerprint(FP)
+    ctx.cov['rule'] = ('fixed corpus (12 sources) x line-end styles + seeded generated programs (single file and a 5-9 file '
+                       'project with import mod / from pkg import sub) x seeded positions/ranges (name leaves, expression '
+                       'nodes, statement runs, random and out-of-range positions) x {rename, inline, extract_variable, '
+                       'extract_function} x {inspect only, apply}; distinct by (source, request); non-trivial = the request '
+                       'produced a Refactoring (refactor/diff/outside), was on disk (inspect), was applied (apply), failed (exc)')
+    ctx.assumptions += [
+        'parso (tokenizer, parser, RefactoringNormalizer) is modelled, not verified: the real tree and the captured '
+        'node_to_str_map are serialised into the model and refactor is compared with get_new_code() on every case',
+        'difflib is not trusted and not modelled: every produced diff is parsed by the harness and applied by the verified applier',
+        'the diff parser, tree serialiser and directory snapshots are harness code (trusted)',
+        'get_diff() normalises a missing final newline (documented in the code): the diff relates preamble(old) to preamble(new)',
+    ]
+    base = '/dev/shm' if os.path.isdir('/dev/shm') and os.access('/dev/shm', os.W_OK) else None
+    root = tempfile.mkdtemp(prefix='jv_c07_', dir=base)
+    _WORK['cache'] = os.path.join(root, 'cache')
+    try:
+        t0 = time.time()
+        tasks = build_tasks(ctx, os.path.join(root, 'w'))
+        ctx.stat('wall_generate', round(time.time() - t0, 1))
+        t0 = time.time()
+        results = common.pmap(_task_d, tasks, chunksize=1)
+        ctx.stat('wall_jedi', round(time.time() - t0, 1))
+    finally:
+        shutil.rmtree(root, ignore_errors=True)
+    t0 = time.time()
+    an = Analysis(ctx)
+    an.shard = 6
+    for t, rs in zip(tasks, results):
+        for r in rs:
+            an.one(t, r)
+    ctx.stat('wall_oracles', round(time.time() - t0, 1))
+    # Volume control for the Coq side: the serialised trees are large (a case is ~10 k list
+    # elements), so the cases are evaluated in seeded random order in waves of 16 shards until the
+    # time budget is used; at least one wave always runs.  The Python oracles above have seen
+    # every case.  A changed fingerprint of a modelled function triples the budget.
+    order = list(range(len(an.file_cases)))
+    ctx.rng.shuffle(order)
+    an.file_cases = [an.file_cases[i] for i in order]
+    an.file_meta = [an.file_meta[i] for i in order]
+    an.deadline = ctx.t0 + ctx.n(95, 700)
+    fp_ref = _reference_fingerprints()
+    changed_fp = sorted(k for k, v in ctx.cov['fingerprints'].items() if fp_ref and fp_ref.get(k) not in (None, v))
+    ctx.stat('changed_fingerprints', changed_fp)
+    if changed_fp:
+        an.deadline = ctx.t0 + ctx.n(240, 1500)
+    t0 = time.time()
+    an.evaluate()
+    ctx.stat('wall_coq', round(time.time() - t0, 1))
+    for k, v in an.stats.items():
+        ctx.stat(k, v)
+    # a few written-out cases
+    seen = set()
+    for mt in an.file_meta:
+        k = mt['op']['kind']
+        if k not in seen and mt['hunks']:
+            seen.add(k)
+            ctx.sample(dict(stream='refactor+diff', kind=k, op=mt['op'], file=mt['file'], map=[(p, s) for p, s in mt['map']][:4],
+                            diff=mt['diff'][:400]))
+    if an.fs_meta:
+        ctx.sample(dict(stream='apply', op=an.fs_meta[0]['op'], renames=an.fs_meta[0]['renames'], changed=an.fs_meta[0]['changed']))
+
+
+def replay(ctx, path):
+    rec = json.load(open(path))
+    print(json.dumps({k: v for k, v in rec.items() if k not in ('files',)}, indent=1, ensure_ascii=False)[:4000])
+    if 'files' not in rec or 'op' not in rec:
+        return 0
+    import tempfile
+    jedi = common.setup_jedi(os.path.join(ctx.tmp, 'cache'))
+    root = tempfile.mkdtemp(prefix='jv_c07_replay_')
+    try:
+        res = run_op(jedi, os.path.join(root, 'op'), rec['files'], rec['main'], rec['op'], rec['use_path'], rec['code_arg'], rec.get('enc'))
+    finally:
+        shutil.rmtree(root, ignore_errors=True)
+    print('--- implementation now:')
+    print('outcome:', res['outcome'], res.get('msg') or res.get('sig') or '')
+    if res['outcome'] == 'ok':
+        obs = res['obs']
+        print('get_renames():', obs['renames'])
+        print('get_diff():')
+        print(obs['diff'])
+        for f in obs['files']:
+            print('changed file', f['from'], '-> announced', f['to_private'])
+            try:
+                _, dfs = parse_diff(f['file_diff'])
+                hunks = dfs[0]['hunks'] if dfs else []
+                out = py_apply(norm_lines(f['old_code']), hunks)
+                print('  harness applier: diff transforms old into get_new_code():', out == norm_lines(f['new_code']))
+                if 'tree' in f:
+                    m = [(k['path'], k['repl']) for k in f['keys'] if k['path'] is not None]
+                    case = '(%s, %s, %s, %s)' % (g_tree_p(f['tree']), g_list(m, lambda e: '(%s, %s)' % (g_kpath(e[0]), g_str(e[1])), 'kpath * str'),
+                                                 g_str(f['new_code']), g_list(hunks, g_hunk, 'hunk'))
+                    print('  model:', common.coq_show(IMPORTS, [
+                        "let '(t, m, newc, hs) := %s in (str_eqb (refactor t m) newc, diff_ok (get_code t) newc hs)" % case])[-200:])
+            except DiffError as e:
+                print('  diff does not parse:', e)
+        if 'fs_after' in res:
+            print('apply():', res.get('apply'), 'files after:', sorted(res['fs_after']))
+    return 0
